@@ -21,27 +21,79 @@ and the writer's own `debug_assert_bail!`s about allocations never fire.
 -/
 namespace Wild.Alloc
 
-instance (p : Kind → Prop) [DecidablePred p] : Decidable (∀ k, p k) :=
-  decidable_of_iff (p .staticExe ∧ p .staticPie ∧ p .dynExe ∧ p .dynPie ∧ p .shared)
-    ⟨fun ⟨a, b, c, d, e⟩ k => by cases k <;> assumption, fun h => ⟨h _, h _, h _, h _, h _⟩⟩
-
 def mk (abs dyn ifunc nonInterp got plt tlsMod tlsOff tlsDesc exportDyn ifuncGot : Bool)
     (kind : Kind) (relr dynIdx rawZero : Bool) : Res :=
   ⟨⟨abs, dyn, ifunc, nonInterp, got, plt, tlsMod, tlsOff, tlsDesc, exportDyn, ifuncGot⟩, kind, relr, dynIdx, rawZero⟩
 
-theorem alloc_eq_consume_aux :
-    ∀ (abs dyn ifunc nonInterp got plt tlsMod tlsOff tlsDesc exportDyn ifuncGot : Bool)
-      (kind : Kind) (relr dynIdx rawZero : Bool),
-      Valid (mk abs dyn ifunc nonInterp got plt tlsMod tlsOff tlsDesc exportDyn ifuncGot kind relr dynIdx rawZero) = true →
-      consume (mk abs dyn ifunc nonInterp got plt tlsMod tlsOff tlsDesc exportDyn ifuncGot kind relr dynIdx rawZero)
-        = .ok (alloc (mk abs dyn ifunc nonInterp got plt tlsMod tlsOff tlsDesc exportDyn ifuncGot kind relr dynIdx rawZero)) := by
-  decide +kernel
+/-! ### Exhaustive evaluation with early pruning -/
+
+def allB (p : Bool → Bool) : Bool := p false && p true
+theorem allB_spec {p : Bool → Bool} (h : allB p = true) (b : Bool) : p b = true := by
+  unfold allB at h; cases b <;> simp_all
+
+def allK (p : Kind → Bool) : Bool := p .staticExe && p .staticPie && p .dynExe && p .dynPie && p .shared
+theorem allK_spec {p : Kind → Bool} (h : allK p = true) (k : Kind) : p k = true := by
+  unfold allK at h; cases k <;> simp_all
+
+theorem guard_spec {g rest : Bool} (h : (!g || rest) = true) (hg : g = true) : rest = true := by
+  simp_all
+
+def okEq : W → Counts → Bool
+  | .ok c, a => decide (c = a)
+  | .error _, _ => false
+theorem okEq_spec {w : W} {a : Counts} (h : okEq w a = true) : w = .ok a := by
+  cases w with
+  | error e => simp [okEq] at h
+  | ok c => simp only [okEq, decide_eq_true_eq] at h; rw [h]
+
+/-- Walks the whole domain (11 flag bits × 5 kinds × relr × dynIdx × rawZero); a prefix that already
+violates a stage of `Valid` is not extended. -/
+def check (cons : Res → W) (al : Res → Counts) (extra : Res → Bool) : Bool :=
+  allB fun ifunc => allB fun dyn => allB fun abs => allB fun tlsOff => allB fun tlsMod => allB fun tlsDesc =>
+  (!stage1 (mk abs dyn ifunc false false false tlsMod tlsOff tlsDesc false false .shared false false false)) ||
+  (allB fun got => allB fun plt =>
+  (!stage2 (mk abs dyn ifunc false got plt tlsMod tlsOff tlsDesc false false .shared false false false)) ||
+  (allB fun ifuncGot => allK fun kind =>
+  (!stage3 (mk abs dyn ifunc false got plt tlsMod tlsOff tlsDesc false ifuncGot kind false false false)) ||
+  (allB fun nonInterp => allB fun exportDyn =>
+  (!stage4 (mk abs dyn ifunc nonInterp got plt tlsMod tlsOff tlsDesc exportDyn ifuncGot kind false false false)) ||
+  (allB fun relr => allB fun dynIdx => allB fun rawZero =>
+    (!stage5 (mk abs dyn ifunc nonInterp got plt tlsMod tlsOff tlsDesc exportDyn ifuncGot kind relr dynIdx rawZero)) ||
+    (!extra (mk abs dyn ifunc nonInterp got plt tlsMod tlsOff tlsDesc exportDyn ifuncGot kind relr dynIdx rawZero) ||
+     okEq (cons (mk abs dyn ifunc nonInterp got plt tlsMod tlsOff tlsDesc exportDyn ifuncGot kind relr dynIdx rawZero))
+          (al (mk abs dyn ifunc nonInterp got plt tlsMod tlsOff tlsDesc exportDyn ifuncGot kind relr dynIdx rawZero)))))))
+
+theorem check_sound {cons : Res → W} {al : Res → Counts} {extra : Res → Bool} (h : check cons al extra = true)
+    (abs dyn ifunc nonInterp got plt tlsMod tlsOff tlsDesc exportDyn ifuncGot : Bool) (kind : Kind)
+    (relr dynIdx rawZero : Bool)
+    (hv : Valid (mk abs dyn ifunc nonInterp got plt tlsMod tlsOff tlsDesc exportDyn ifuncGot kind relr dynIdx rawZero) = true)
+    (hx : extra (mk abs dyn ifunc nonInterp got plt tlsMod tlsOff tlsDesc exportDyn ifuncGot kind relr dynIdx rawZero) = true) :
+    cons (mk abs dyn ifunc nonInterp got plt tlsMod tlsOff tlsDesc exportDyn ifuncGot kind relr dynIdx rawZero)
+      = .ok (al (mk abs dyn ifunc nonInterp got plt tlsMod tlsOff tlsDesc exportDyn ifuncGot kind relr dynIdx rawZero)) := by
+  simp only [Valid, Bool.and_eq_true] at hv
+  obtain ⟨⟨⟨⟨h1, h2⟩, h3⟩, h4⟩, h5⟩ := hv
+  unfold check at h
+  have a1 := allB_spec (allB_spec (allB_spec (allB_spec (allB_spec (allB_spec h ifunc) dyn) abs) tlsOff) tlsMod) tlsDesc
+  have b1 := guard_spec a1 h1
+  have a2 := allB_spec (allB_spec b1 got) plt
+  have b2 := guard_spec a2 h2
+  have a3 := allK_spec (allB_spec b2 ifuncGot) kind
+  have b3 := guard_spec a3 h3
+  have a4 := allB_spec (allB_spec b3 nonInterp) exportDyn
+  have b4 := guard_spec a4 h4
+  have a5 := allB_spec (allB_spec (allB_spec b4 relr) dynIdx) rawZero
+  have b5 := guard_spec a5 h5
+  have b6 := guard_spec b5 hx
+  exact okEq_spec b6
+
+theorem check_current : check consume alloc (fun _ => true) = true := by decide +kernel
 
 /-- **Allocation = consumption for every resolution** (current code): ALL combinations of the 11
-flag bits × 5 output kinds × RELR on/off × value zero/non-zero that layout can produce. -/
+flag bits × 5 output kinds × RELR on/off × has-dynsym-index × value zero/non-zero that layout can
+produce. -/
 theorem alloc_eq_consume_resolution (r : Res) (h : Valid r = true) : consume r = .ok (alloc r) := by
   obtain ⟨⟨a, b, c, d, e, f, g, h', i, j, k⟩, kind, relr, dynIdx, rawZero⟩ := r
-  exact alloc_eq_consume_aux a b c d e f g h' i j k kind relr dynIdx rawZero h
+  exact check_sound check_current a b c d e f g h' i j k kind relr dynIdx rawZero h rfl
 
 /-- `Valid` is far from empty: e.g. a PLT call to a shared-library function from a PIE, TLS GD of an
 exported variable in a shared object, a canonical-PLT ifunc in a static executable. -/
@@ -55,6 +107,15 @@ theorem alloc_eq_consume_site (relr : Bool) (img0 : Wild.Relr.Image) (sites : Li
     Wild.Relr.link relr img0 sites = .ok (Wild.Relr.emit (Wild.Relr.layoutChoosesRelr relr) img0 sites) :=
   Wild.Relr.alloc_eq_write relr img0 sites
 
+/-- Symbols that need none of the tables (no GOT/PLT/TLS-GOT request): nothing is reserved and the
+writer is not even entered — for every flag combination, inside `Valid` or not. -/
+theorem no_tables_trivial (r : Res) (h1 : r.f.got = false) (h2 : r.f.plt = false) (h3 : r.f.tlsMod = false)
+    (h4 : r.f.tlsOff = false) (h5 : r.f.tlsDesc = false) (h6 : r.f.ifuncGot = false) :
+    consume r = .ok (alloc r) ∧ alloc r = {} := by
+  simp [consume, consumeWith, alloc, allocWith, hasGotAddress, Flags.isTls, skip, h1, h2, h3, h4, h5, h6]
+  exact ⟨rfl, rfl⟩
+
+
 /-! ### The code before the fix -/
 
 def alloc_eq_consume_old_full : Prop := ∀ r : Res, Valid r = true → consumeOld r = .ok (allocOld r)
@@ -65,25 +126,22 @@ relocation, the writer (value 0 ⇒ "resolution is undefined") wrote none:
 "Allocated too much space in .rela.dyn (general)". -/
 theorem alloc_ne_consume_old_witness : ¬ alloc_eq_consume_old_full := by
   intro h
-  have := h (mk true false false true false false false true false false false .shared false false true) (by decide)
-  revert this
+  have h2 := h (mk true false false true false false false true false false false .shared false false true) (by decide)
+  have h3 : okEq (consumeOld (mk true false false true false false false true false false false .shared false false true))
+      (allocOld (mk true false false true false false false true false false false .shared false false true)) = true := by
+    rw [h2]; simp [okEq]
+  revert h3
   decide
 
-theorem alloc_eq_consume_old_partial_aux :
-    ∀ (abs dyn ifunc nonInterp got plt tlsMod tlsOff tlsDesc exportDyn ifuncGot : Bool)
-      (kind : Kind) (relr dynIdx rawZero : Bool),
-      Valid (mk abs dyn ifunc nonInterp got plt tlsMod tlsOff tlsDesc exportDyn ifuncGot kind relr dynIdx rawZero) = true →
-      !(tlsOff && abs && nonInterp && kind.isSharedObject) = true →
-      consumeOld (mk abs dyn ifunc nonInterp got plt tlsMod tlsOff tlsDesc exportDyn ifuncGot kind relr dynIdx rawZero)
-        = .ok (allocOld (mk abs dyn ifunc nonInterp got plt tlsMod tlsOff tlsDesc exportDyn ifuncGot kind relr dynIdx rawZero)) := by
-  decide +kernel
+def notOldDefect (r : Res) : Bool := !(r.f.tlsOff && r.f.abs && r.f.nonInterp && r.kind.isSharedObject)
+
+theorem check_old : check consumeOld allocOld notOldDefect = true := by decide +kernel
 
 /-- Everything else already agreed before the fix. -/
-theorem alloc_eq_consume_old_partial (r : Res) (h : Valid r = true)
-    (hx : !(r.f.tlsOff && r.f.abs && r.f.nonInterp && r.kind.isSharedObject) = true) :
+theorem alloc_eq_consume_old_partial (r : Res) (h : Valid r = true) (hx : notOldDefect r = true) :
     consumeOld r = .ok (allocOld r) := by
   obtain ⟨⟨a, b, c, d, e, f, g, h', i, j, k⟩, kind, relr, dynIdx, rawZero⟩ := r
-  exact alloc_eq_consume_old_partial_aux a b c d e f g h' i j k kind relr dynIdx rawZero h hx
+  exact check_sound check_old a b c d e f g h' i j k kind relr dynIdx rawZero h hx
 
 /-! ### The table regenerated from the running code -/
 
@@ -135,13 +193,20 @@ theorem alloc_table_matches_model : Gen.allocTable.all rowMatchesModel = true :=
 def bools : List Bool := [false, true]
 def kinds : List Kind := [.staticExe, .staticPie, .dynExe, .dynPie, .shared]
 
-/-- Number of resolutions in `Valid` (by enumeration of the finite domain). -/
+/-- Number of resolutions in `Valid`, by the same pruned walk as `check` (a prefix is dropped exactly
+when a stage of `Valid` — which reads only that prefix — is already false). -/
 def validCount : Nat :=
-  (bools.flatMap fun a => bools.flatMap fun b => bools.flatMap fun c => bools.flatMap fun d =>
-   bools.flatMap fun e => bools.flatMap fun f => bools.flatMap fun g => bools.flatMap fun h =>
-   bools.flatMap fun i => bools.flatMap fun j => bools.flatMap fun k => kinds.flatMap fun kd =>
-   bools.flatMap fun relr => bools.flatMap fun di => bools.flatMap fun rz =>
-     if Valid (mk a b c d e f g h i j k kd relr di rz) then [()] else []).length
+  (bools.flatMap fun ifunc => bools.flatMap fun dyn => bools.flatMap fun abs => bools.flatMap fun tlsOff =>
+   bools.flatMap fun tlsMod => bools.flatMap fun tlsDesc =>
+   if !stage1 (mk abs dyn ifunc false false false tlsMod tlsOff tlsDesc false false .shared false false false) then [] else
+   bools.flatMap fun got => bools.flatMap fun plt =>
+   if !stage2 (mk abs dyn ifunc false got plt tlsMod tlsOff tlsDesc false false .shared false false false) then [] else
+   bools.flatMap fun ifuncGot => kinds.flatMap fun kind =>
+   if !stage3 (mk abs dyn ifunc false got plt tlsMod tlsOff tlsDesc false ifuncGot kind false false false) then [] else
+   bools.flatMap fun nonInterp => bools.flatMap fun exportDyn =>
+   if !stage4 (mk abs dyn ifunc nonInterp got plt tlsMod tlsOff tlsDesc exportDyn ifuncGot kind false false false) then [] else
+   bools.flatMap fun relr => bools.flatMap fun dynIdx => bools.flatMap fun rawZero =>
+   if Valid (mk abs dyn ifunc nonInterp got plt tlsMod tlsOff tlsDesc exportDyn ifuncGot kind relr dynIdx rawZero) then [()] else []).length
 
 def rowKey (row : Gen.AllocRow) : Nat :=
   (((row.flags * 8 + row.kind) * 2 + row.relr.toNat) * 2 + (!row.rawZero).toNat) * 2 + row.dynIdx.toNat
